@@ -60,6 +60,10 @@ func TestC19(t *testing.T) {
 	for bi := 0; bi < vh.Pick(1, 12); bi++ {
 		runBatch(rep, vh.Sub(seed, fmt.Sprintf("c19-batch-%d", bi)), fmt.Sprintf("ve%d", bi), vh.Pick(25, 40), st, gen, false)
 	}
+	// link mode: the included definition (named like a shipped dialect) is referred to, the enum it shares with the generated
+	// dialect is merged into the generated package
+	runBatchOf(rep, genLinkBatch(vh.Sub(seed, "c19-link"), "vl"), "vl", st, gen, false)
+	rep.Count("link_mode_dialects", 1)
 	collect(gen, "generated")
 	rep.Floor("enum_types_shipped", 200)
 	rep.Floor("bitmask_enum_types_shipped", 40)
